@@ -12,6 +12,8 @@ from rules import c01
 
 PROP = 'C12'
 
+REQ_HELPERS = ('UPIPE_HELPER_UBUF_MGR', 'UPIPE_HELPER_UREF_MGR', 'UPIPE_HELPER_UCLOCK', 'UPIPE_HELPER_FLOW_FORMAT')
+
 PAIRS = [('alloc_output_proxy', 'free_output_proxy'), ('register_output_request', 'unregister_output_request')]
 
 
@@ -52,6 +54,9 @@ def run(tier='quick', repo=None):
     rep.rule('R-replay', 'X_set_output: (a) upipe_unregister_request(old OUTPUT, r) sits in a loop over REQUEST_LIST and precedes upipe_release; (b) upipe_register_request(new OUTPUT, r) is reachable after the OUTPUT store, guarded by !r->registered; (c) after a registration the scan of REQUEST_LIST restarts from the head')
     rep.rule('R-unreg-always', 'X_unregister_output_request: ulist_delete precedes every return; upipe_qsink_unregister_request: once the proxy is found every path to a return passes ulist_delete; X_free_output_proxy: unregister precedes urequest_free_proxy')
     rep.rule('R-regflag', 'stores to urequest.registered occur only in urequest_init*, upipe_register_request, upipe_unregister_request')
+    rep.rule('R-require', 'X_require_* of the four request helpers: the managed request is never modified in place; every path re-initialises it (urequest_init_*); a live request is unregistered, then cleaned, before that; the new request is registered afterwards')
+    rep.rule('R-fallback', 'X_register_output_request: the result of forwarding to the output is returned only under the test that it is not UBASE_ERR_UNHANDLED; otherwise the request is thrown to the probes (upipe_throw_provide_request)')
+    rep.rule('R-unreg-match', 'a function that receives the request being unregistered and forgets a proxied request (urequest_set_opaque(x, NULL)) does so only under an equality test involving that request')
     rep.rule('R-late-answer', 'upipe_qsink_oob: every urequest_provide_* call is control dependent on ulist_is_in(request) being true')
     # ---- R-reqpair ------------------------------------------------------------------
     for uname, u in sorted(prog.units.items()):
@@ -155,6 +160,54 @@ def run(tier='quick', repo=None):
                 thr = ev.find(pr.m_call('upipe_throw_provide_request'))
                 rep.add('R-replay', fn.name, VIOLATED if (bad or not thr) else HOLDS, fn.loc,
                         **({'what': 'a request must be listed (for replay) before it is forwarded, and thrown as provide_request when no output handles it'} if (bad or not thr) else {}))
+                # the forwarding result is final only if the output handled the command
+                fws = ev.find(fw)
+                rets = []
+                for c in fws:
+                    hits, _ = ev.reach((c[0], c[1]), pr.m_return(), pr.m_call('upipe_throw_provide_request'))
+                    rets += hits
+                line_conds = {}
+                for b2 in fn.blocks:
+                    c2 = fn.cond(b2)
+                    if c2 and any(enum_name(y) == 'UBASE_ERR_UNHANDLED' or y.get('n') == 'UBASE_ERR_UNHANDLED' for y in walk(fn.resolve(c2[0]))):
+                        line_conds[b2] = True
+                # operands of likely(a && b) are evaluated in blocks of their own: look for the comparison anywhere before the return
+                cmp_unh = lambda n: n.get('k') == 'bin' and n.get('op') in ('!=', '==') and any(
+                    enum_name(y) == 'UBASE_ERR_UNHANDLED' or (y.get('k') == 'ref' and y.get('n') == 'UBASE_ERR_UNHANDLED') for y in walk(n))
+                badr = []
+                for c in fws:
+                    hits, _ = ev.reach((c[0], c[1]), pr.m_return(), pr.m_any(pr.m_call('upipe_throw_provide_request'), cmp_unh))
+                    badr += hits
+                okf = bool(fws) and bool(thr) and not badr
+                rep.add('R-fallback', fn.name, HOLDS if okf else VIOLATED, fn.loc,
+                        **({} if okf else {'what': 'the value of upipe_register_request(output) is returned without testing it against UBASE_ERR_UNHANDLED: '
+                                                   'when the output does not implement the command nobody provides and the request is never thrown to the probes'}))
+    # ---- R-unreg-match ------------------------------------------------------------------------
+    for uname, u in sorted(prog.units.items()):
+        for fn in sorted(u.funcs.values(), key=lambda f: f.name):
+            if fn.macro or not fn.blocks or 'unregister' not in fn.name:
+                continue
+            rp = [p_['n'] for p_ in fn.params if p_['t'] == 'struct urequest *']
+            if not rp:
+                continue
+            ev = pr.Events(fn)
+            forget = lambda n: n.get('k') == 'call' and n.get('fn') == 'urequest_set_opaque' and len(n.get('args', [])) > 1 and const_of(n['args'][1]) == 0
+            sites = ev.find(forget)
+            if not sites:
+                continue
+            ldefs = fn.local_defs()
+
+            def matches(ctree, pol, fn=fn, rp=rp):
+                n, neg = strip_expect(fn.resolve(ctree))
+                if not (isinstance(n, dict) and n.get('k') == 'bin' and n.get('op') in ('==', '!=')):
+                    return False
+                names = {y.get('n') for y in walk(n) if y.get('k') == 'ref'}
+                want = (n['op'] == '==') != neg
+                return bool(names & set(rp)) and pol == want
+            ok = all(pr.control_dependent(fn, ev, c, matches) for c in sites)
+            rep.add('R-unreg-match', fn.name, HOLDS if ok else VIOLATED, fn.loc,
+                    **({} if ok else {'what': '%s forgets the proxied request whatever request is being unregistered: unregistering an older request '
+                                              'disconnects the one registered after it, whose answer is then swallowed' % fn.name}))
     # ---- qsink ----------------------------------------------------------------------------------
     u = prog.units.get('lib/upipe-modules/upipe_queue_sink.c')
     if u is None:
@@ -198,20 +251,73 @@ def run(tier='quick', repo=None):
     ok = len(provs) >= 3 and all(pr.control_dependent(fn, ev, p, listed) for p in provs)
     rep.add('R-late-answer', 'upipe_qsink_oob', HOLDS if ok else VIOLATED, fn.loc, provide_sites=len(provs),
             **({} if ok else {'what': 'an answer is delivered without checking that the request is still listed (ulist_is_in)'}))
-    # ---- R-regflag ---------------------------------------------------------------------------------
+    # ---- R-regflag / R-req-fields -------------------------------------------------------------------
     allowed = re.compile(r'^(urequest_init\w*|upipe_register_request|upipe_unregister_request|urequest_alloc_proxy|urequest_clean)$')
-    writers = {}
+    allowed_other = re.compile(r'^(urequest_init\w*|urequest_clean|urequest_alloc_proxy|urequest_free_proxy|urequest_set_opaque|urequest_free|\w+_alloc_output_proxy)$')  # the last one fills a proxy it has just allocated
+    writers, fwriters = {}, {}
     for uname2, u2 in list(prog.units.items()) + [('headers', H)]:
         for fn in u2.funcs.values():
             for bid, s, x in fn.nodes():
                 if is_assign(x):
                     l = strip(x['lhs'])
-                    if isinstance(l, dict) and l.get('k') == 'mem' and l.get('rec') == 'urequest' and l.get('f') == 'registered':
-                        writers.setdefault(fn.name, '%s:%s' % (fn.file, x.get('l')))
+                    if isinstance(l, dict) and l.get('k') == 'mem' and l.get('rec') == 'urequest':
+                        if l.get('f') == 'registered':
+                            writers.setdefault(fn.name, '%s:%s' % (fn.file, x.get('l')))
+                        elif l.get('f') in ('type', 'uref', 'urequest_provide', 'urequest_free', 'opaque'):
+                            fwriters.setdefault((fn.name, l['f']), '%s:%s' % (fn.file, x.get('l')))
     if not writers:
         raise facts.AnalysisBroken('no writer of urequest.registered found')
     for w, loc in sorted(writers.items()):
         ok = bool(allowed.match(w))
         rep.add('R-regflag', w, HOLDS if ok else VIOLATED, loc, **({} if ok else {'what': '%s writes urequest.registered' % w}))
+    # direct stores into the request a request helper manages (the macro parameter REQUEST): never, anywhere
+    nreq = 0
+    for uname2, u2 in sorted(prog.units.items()):
+        for fn in sorted(u2.funcs.values(), key=lambda f: f.name):
+            if not (fn.macro in REQ_HELPERS and re.search(r'_require_\w+$', fn.name)):
+                continue
+            nreq += 1
+            ev = pr.Events(fn)
+            why = []
+            direct = []
+            for bid, st_, x in fn.nodes():
+                if is_assign(x):
+                    l = strip(x['lhs'])
+                    if isinstance(l, dict) and l.get('k') == 'mem' and l.get('rec') == 'urequest':
+                        b_ = strip_all_casts(l.get('b'))
+                        if isinstance(b_, dict) and b_.get('k') == 'mem' and b_.get('mp') == 'REQUEST':
+                            direct.append(x.get('l'))
+            if direct:
+                why.append('the request is modified in place (urequest.%s written directly): pipes downstream hold proxies made from the old contents, '
+                           'so the change is never re-issued' % 'uref')
+            init = pr.m_call(r'urequest_init_\w+')
+            clean = pr.m_call('urequest_clean')
+            ind = lambda n: n.get('k') == 'call' and not n.get('fn')
+            _, ex = ev.reach(None, lambda n: False, init, from_entry=True)
+            if ex or not ev.find(init):
+                why.append('a path returns without re-issuing the request (no urequest_init_*): the new flow format never reaches the provider')
+            if not ev.find(clean) or pr.never_after(ev, init, clean):
+                why.append('urequest_clean must precede the re-initialisation of a live request')
+            inds = ev.find(ind)
+            if len(inds) < 2:
+                why.append('the request must be unregistered (before urequest_clean) and registered (after urequest_init_*) through the REGISTER / UNREGISTER call-backs')
+            else:
+                # an indirect call before the clean (unregister) and one after the init (register)
+                # (the call-backs are optional: `if (unreg != NULL)`) an indirect call from which the clean is reached
+                pre = []
+                for pos in inds:
+                    h, _ = ev.reach((pos[0], pos[1]), clean, init)
+                    pre += h
+                if not pre:
+                    why.append('a live request is cleaned without having been unregistered first')
+                hits = []
+                for pos in ev.find(init):
+                    h, _ = ev.reach((pos[0], pos[1]), ind, None)
+                    hits += h
+                if not hits:
+                    why.append('the re-initialised request is not registered again')
+            rep.add('R-require', fn.name, VIOLATED if why else HOLDS, fn.loc, **({'what': '; '.join(why)} if why else {'helper': fn.macro}))
+    if nreq < 30:
+        raise facts.AnalysisBroken('R-require found only %d X_require_* functions' % nreq)
     rep.assumptions = ['a pipe\'s control function is what its upipe_mgr slot holds; commands are dispatched by switch']
     return rep
